@@ -81,6 +81,13 @@ parser { "s"; loop { try { if n == 0 { s += [65]; } else { s += [66]; n = 0; } /
 ]
 
 
+# actions that follow a yield in program order but sit on the next fall-through (loop-start actions, the statement after the case)
+FEATURES += [
+    ("feat-yield-loopstart", ["-fyield-support"], """out int x = 0; yieldcode W, S; hook h;
+parser { loop { x = 0; case { /[a-z]+/ -> { x = 1; yield W; } " " -> { h(); } } } }"""),
+    ("feat-yield-then-action", ["-fyield-support"], """out int{unsigned, size 1} n = 0; yieldcode W, S; hook h;
+parser { loop { case { "(" -> { n = [n + 1]; yield S; n = [n + 2]; } /[a-z]/ -> { yield W; } " " -> { h(); } } n = [n * 2]; } }"""),
+]
 # a program ending in an action-less fall-through into its final state (empty else clause / empty catch block)
 FEATURES += [
     ("feat-final-else", [], """out int m = 0; hook h;
